@@ -96,6 +96,9 @@ def make_history(rng, kind, as_int):
     if as_int:
         for c in ("results_turnout", "results_dem", "results_gop", "results_weights", "results_margin"):
             df[c] = df[c].astype("int64")
+    if rng.random() < 0.25:
+        # the stored share of a version without two-party votes is the 0/0 it was computed as: a missing value
+        df.loc[w == 0, "results_normalized_margin"] = np.nan
     return df, last_kind
 
 
@@ -104,7 +107,9 @@ def reference(h):
     t = [float(r["results_turnout"]) for r in h]
     d = [float(r["results_dem"]) for r in h]
     g = [float(r["results_gop"]) for r in h]
-    m = [float(r["results_normalized_margin"]) for r in h]
+    # a version without two-party votes has no share to speak of: its (possibly missing) stored share counts as 0
+    m = [0.0 if _nan(r["results_normalized_margin"]) or (float(r["results_dem"]) + float(r["results_gop"]) == 0 and _nan(
+        float(r["results_normalized_margin"]))) else float(r["results_normalized_margin"]) for r in h]
     n = len(h)
     reasons = []
     if any(t[i + 1] < t[i] for i in range(n - 1)):
